@@ -34,3 +34,34 @@ Proof. exact run_all_fee_sound. Qed.
 Print Assumptions C10_index_classification.
 Print Assumptions C10_reads_attributed.
 Print Assumptions C10_fee_contexts_sound.
+
+(* ------------------------------------------------------------------------------------------------------------
+   Extension (second round): theorems from Lemmas/{WalkLemmas,OutputLemmas,TypeExec,NoMiss2,ParseLemmas2,PaddingLemmas}.v *)
+From Coq Require Import List String NArith ZArith Bool Arith.
+From Tealer Require Import Tables Leaves LeafPrelude Syntax Parse Cfg StackAst Keys Analysis Domains Detect Group Output Runs Eval Exec InsExec Paths WalkLemmas OutputLemmas TypeExec NoMiss2 ParseLemmas2 PaddingLemmas.
+
+(* transaction kinds of other group members (all key families) *)
+Theorem C10_type_contexts_sound_partial :
+  forall (e : env) (sem : opsem) (f : func) (fuel : nat) (indices : list (nat * list Z)) (res : list (keyfam * list (nat * list string)))
+         (fam : keyfam) (r : list (nat * list string)) (t : N) (L : string) (ty oc ap : N) (cfgs : list rconfig),
+       sem_ok e sem ->
+       env_ok e ->
+       fn_intcs f = e_intcs e ->
+       ExecLemmas.graph_ok f ->
+       run_family f fuel lset_eqb ALL_TRANSACTION_TYPES nil lunion linter (fun fam0 : keyfam => type_single (fn_intcs f) fam0) indices = Done res ->
+       In (fam, r) res ->
+       key_txn e fam = Some t ->
+       kind_fields e t ty oc ap ->
+       TypeLemmas.in_range ty oc ap ->
+       In L TypeLemmas.c07_labels ->
+       TypeLemmas.carries ty oc ap L = true ->
+       type_leaves_ok f fam L ty oc ap ->
+       match fam with
+       | KAtIndex i => type_leaves_ok f KSelf L ty oc ap /\ ExecLemmas.index_sound indices i cfgs
+       | _ => True
+       end ->
+       Accepts e sem f cfgs ->
+       forall (b : nat) (st : list nat), In (b, st) cfgs -> exists v : list string, lookup (list string) r b = Some v /\ In L v.
+Proof. exact @C10_type_sound_partial. Qed.
+
+Print Assumptions C10_type_contexts_sound_partial.
